@@ -86,6 +86,7 @@ type Chain struct {
 	LastBegin abci.ResponseBeginBlock
 	LastEnd   abci.ResponseEndBlock
 	LastTx    *abci.ResponseDeliverTx
+	SimOnly   bool // Deliver() only simulates (VERIF_SIMULATE look-ahead)
 }
 
 func mkAccount(i int) Account {
@@ -288,6 +289,15 @@ func (c *Chain) Deliver(signer int, msgs ...sdk.Msg) (ok bool, resp abci.Respons
 	bz, err := c.Enc.TxConfig.TxEncoder()(tx)
 	if err != nil {
 		return false, abci.ResponseDeliverTx{Code: 997, Log: err.Error()}
+	}
+	if c.SimOnly {
+		// a node-local simulation (gas estimation / mempool check): runs on a branch of the last committed state that is
+		// thrown away, so it must leave no trace in what later blocks compute
+		func() {
+			defer func() { _ = recover() }()
+			_, _, _ = c.App.Simulate(bz)
+		}()
+		return false, abci.ResponseDeliverTx{Code: 996, Log: "simulated only"}
 	}
 	resp = c.App.DeliverTx(abci.RequestDeliverTx{Tx: bz})
 	r2 := resp
